@@ -66,7 +66,7 @@ def runEvents (w : World) (evs : List Ev) : List Json :=
   match evs with
   | [] => []
   | ev :: rest =>
-    let r := step w ev
+    let r := stepW w ev
     let newLog := r.1.conn.log.drop w.conn.log.length
     Json.mkObj [("res", resToJson r.2), ("flags", flagsToJson r.1.conn.flags),
                 ("open", natArr (r.1.conn.srv.ctxs.map (·.id))),
